@@ -85,6 +85,23 @@ theorem rss14_after_reset_two_rows_not_found {F : Type} (o : FOps F) (T : Tables
   rw [h.1, h.2]
   exact ⟨_, _, _, rfl⟩
 
+/-- **History invariant**: pairs are remembered by value — if the remembered left (right) values are pairwise distinct
+    before a call they are after it, and a call adds at most one pair to each list (so the lists grow at most
+    linearly in the number of rows since the last `Reset`). -/
+theorem rss14_history_invariant {F : Type} (o : FOps F) (T : Tables) (wf : wfRSS T = true) (st : State) (rn : Int)
+    (row : List Bool) (cb : Bool)
+    (hl : (st.left.map (·.value)).Nodup) (hr : (st.right.map (·.value)).Nodup) :
+    let st' := (decodeRow o T st rn row cb).1
+    (st'.left.map (·.value)).Nodup ∧ (st'.right.map (·.value)).Nodup ∧
+      st'.left.length ≤ st.left.length + 1 ∧ st'.right.length ≤ st.right.length + 1 := by
+  have hw := wfRSS_iff wf
+  obtain ⟨lp, hlp⟩ := decodePair_ok o T hw row false rn cb
+  obtain ⟨rp, hrp⟩ := decodePair_ok o T hw row.reverse true rn cb
+  simp only [decodeRow, hlp, hrp]
+  have h1 := addOrTally_nodup hl lp
+  have h2 := addOrTally_nodup hr rp
+  exact ⟨h1.1, h2.1, h1.2, h2.2⟩
+
 /-! ### non-vacuity -/
 
 example : wfRSS refTables = true := by decide
